@@ -93,6 +93,7 @@ type stepCtx struct {
 	wellFormed      bool // header and PossDup/OrigSendingTime consistent (always true for the faithful peer)
 	connectedBefore bool
 	sBefore         int
+	keptBefore      int // messages kept for later (received above the expected number) before the step
 }
 
 // drawExtras adds generated settings that must not change any of the session properties: the
@@ -219,6 +220,9 @@ func (s *sim) observe(st rig.StepResult, ctx stepCtx) {
 
 func (s *sim) ctxFor(kind string, raw []byte, faithful bool) stepCtx {
 	ctx := stepCtx{kind: kind, raw: raw, tBefore: s.r.T(), stateBefore: s.r.V.StateName(), loggedOnBefore: s.r.V.IsLoggedOn(), faithful: faithful, wellFormed: faithful, connectedBefore: s.r.V.IsConnected(), sBefore: s.r.S()}
+	if _, kept, _, _ := s.r.V.ResendInfo(); len(kept) > 0 {
+		ctx.keptBefore = len(kept)
+	}
 	if raw != nil {
 		ctx.fields, _ = fixwire.Scan(raw, map[int]int{212: 213})
 		ctx.msgType = fixwire.GetS(ctx.fields, 35)
